@@ -437,7 +437,7 @@ func Run(r *vk.Run) {
 		go func() {
 			defer wg.Done()
 			for s := range ch {
-				RunScript(r, s)
+				r.Guard(s, func() { RunScript(r, s) })
 			}
 		}()
 	}
